@@ -143,9 +143,6 @@ func unrank(l, k int) []model.Op {
 }
 
 func exhLen(tier string) int {
-	if os.Getenv("C13_DEV") != "" {
-		return 3
-	}
 	if tier == "thorough" {
 		return 5
 	}
@@ -161,35 +158,110 @@ func exhCount(tier string) int {
 }
 
 // ---------------------------------------------------------------------------
-// deterministic probe block: every pair (setup, op) of a small set of
-// boundary situations, the same for every seed, so that each construct is
-// seen in a short history on every run.
+// deterministic probe block: hand-written histories, the same for every seed,
+// one or more per construct the exhaustive depth does not reach (each avoided
+// class is re-observed here on every run, and so is its clean neighbourhood).
+// Syntax: "<init>| op; op; ..." with ops "in 1", "use 1", "unuse 1",
+// "export v0", "unexport v0", "setq v0", "defvar v0", "defun f0",
+// "makunbound v0", "fmakunbound f0", "import 1 f0",
+// "defpackage 2 u=0,1 e=v0,f0".
+
+var probes = []string{
+	// plain visibility life cycle, variables and functions
+	"3| setq v0; export v0; in 1; use 0; in 0; setq v0; unexport v0; export v0; in 1; in 2; use 1",
+	"3| defun f0; export f0; in 1; use 0; in 0; defun f0; unexport f0; export f0; in 1; in 2; use 1",
+	"3| setq v0; defun f0; export v0; export f0; in 1; use 0; in 2; use 0; in 0; unexport v0; unexport f0",
+	"3| in 1; setq v0; setq v1; export v0; in 2; defun f0; defun f1; export f1; in 0; use 1; use 2; setq v0; defun f1",
+	"3| use 1; use 2; in 1; setq v0; export v0; in 2; defun f0; export f0; in 0; in 1; makunbound v0; in 2; unexport f0",
+	"2| setq v0; export v0; defun f0; export f0; defpackage 2 u=0; in 2; setq v1; defun f1; in 0",
+	"1| setq v0; defpackage 1; defpackage 2 u=1; in 1; setq v0; export v0; in 2; in 0; use 1",
+	// two used packages export the same name
+	"3| setq v0; export v0; in 1; setq v0; export v0; in 2; use 0; use 1",
+	// the avoided classes
+	"3| use 1; defun f0; unuse 1",
+	"3| defun f0; unuse 1",
+	"3| setq v0; in 1; setq v0; export v0; in 0; use 1",
+	"3| defun f0; in 1; defun f0; export f0; in 0; use 1",
+	"3| setq v0; export v0; in 1; use 0; in 2; use 1",
+	"2| setq v0; export v0; in 1; use 0; defpackage 2 u=1",
+	"2| defpackage 2 e=f0; use 2; in 2; defun f0",
+	"2| defpackage 2 u=0 e=f0; use 2; in 2; defun f0",
+	"3| use 1; in 1; export f0; defun f0",
+	"3| use 1; use 2; in 1; defun f0; export f0; setq v0; export v0; in 2; defun f0; export f0; in 0; in 1; unexport f0; in 0",
+	"3| setq v0; export v0; in 1; use 0; unexport v0",
+	"3| defun f0; export f0; in 1; use 0; unexport f0",
+	"3| in 2; use 0; use 1; in 0; setq v0; export v0; in 1; setq v0; export v0; in 0; unexport v0",
+	"3| use 1; in 1; setq v0; setq v0",
+	"3| use 1; in 2; use 0; in 1; setq v1; export v1; in 0; setq v1",
+	"3| defun f0; export f0; in 1; use 0; defun f0; in 0; unexport f0",
+	"3| setq v0; export v0; in 1; use 0; makunbound v0",
+	"3| defun f0; export f0; in 1; use 0; fmakunbound f0",
+	"3| defun f0; export f0; in 1; use 0; in 0; fmakunbound f0",
+	"3| use 1; setq v0; in 1; setq v0; export v0; in 0; makunbound v0",
+	"3| use 1; defun f0; in 1; defun f0; export f0; in 0; fmakunbound f0",
+	"3| in 2; use 0; use 1; in 0; setq v0; export v0; in 1; setq v0; export v0; in 0; makunbound v0",
+	"3| in 1; defun f0; export f0; in 0; import 1 f0",
+	"3| in 1; setq v0; in 0; import 1 v0; in 1; setq v0",
+	"3| in 1; defun f1; export f1; fmakunbound f1; in 2; use 1; in 1; defun f1; unexport f1; in 2; defun f1",
+}
+
+func parseProbe(src string) Case {
+	c := Case{Mode: "probe"}
+	head, body, _ := strings.Cut(src, "|")
+	fmt.Sscan(head, &c.Init)
+	for _, part := range strings.Split(body, ";") {
+		f := strings.Fields(part)
+		if len(f) == 0 {
+			continue
+		}
+		op := model.Op{K: f[0]}
+		switch f[0] {
+		case "in", "use", "unuse":
+			fmt.Sscan(f[1], &op.P)
+		case "import":
+			fmt.Sscan(f[1], &op.P)
+			op.N = f[2]
+		case "defpackage":
+			fmt.Sscan(f[1], &op.P)
+			for _, o := range f[2:] {
+				if v, ok := strings.CutPrefix(o, "u="); ok {
+					for _, u := range strings.Split(v, ",") {
+						var q int
+						fmt.Sscan(u, &q)
+						op.Use = append(op.Use, q)
+					}
+				}
+				if v, ok := strings.CutPrefix(o, "e="); ok {
+					op.Exp = strings.Split(v, ",")
+				}
+			}
+		default:
+			op.N = f[1]
+		}
+		c.Ops = append(c.Ops, op)
+	}
+	return c
+}
 
 // ---------------------------------------------------------------------------
 // sizes
 
 func nShort(tier string) int {
-	if os.Getenv("C13_DEV") != "" {
-		return 6000
-	}
 	if tier == "thorough" {
-		return 100000
+		return 60000
 	}
 	return 12000
 }
 
 func nLong(tier string) int {
-	if os.Getenv("C13_DEV") != "" {
-		return 600
-	}
 	if tier == "thorough" {
-		return 12000
+		return 6000
 	}
 	return 1200
 }
 
 func nCases(tier string) int {
-	return exhCount(tier) + nShort(tier) + nLong(tier)
+	return len(probes) + exhCount(tier) + nShort(tier) + nLong(tier)
 }
 
 // ---------------------------------------------------------------------------
@@ -353,11 +425,15 @@ func avoidKey(a *avoidSet, cls string) string {
 }
 
 func gen(r *rand.Rand, i int, tier string) Case {
+	if i < len(probes) {
+		return parseProbe(probes[i])
+	}
+	i -= len(probes)
 	ne := exhCount(tier)
 	// the long histories are spread evenly over the index space so that every
 	// worker batch gets its share of them
 	nl := nLong(tier)
-	stride := nCases(tier) / nl
+	stride := (nCases(tier) - len(probes)) / nl
 	if i%stride == 0 && i/stride < nl {
 		i = ne + nShort(tier) + i/stride
 	} else {
@@ -651,6 +727,7 @@ type result struct {
 	trace     []string
 	graph     string
 	completed bool
+	tainted   bool // an operation of an avoided class was executed
 	skipped   bool // exhaustive case whose prefix already departs
 }
 
@@ -751,6 +828,7 @@ func run(x counter, c Case) (res result) {
 		return
 	}
 	res.completed = true
+	res.tainted = root != "-"
 	return
 }
 
@@ -802,6 +880,11 @@ func exec(x *fw.Ctx, c Case) {
 		return
 	}
 	x.Cover("mode:" + c.Mode)
+	if c.Mode == "short" || c.Mode == "long" {
+		for _, a := range dirty().list() {
+			x.Cover("avoided:" + a) // kept out of 3/4 of the seeded histories while its finding is open
+		}
+	}
 	res := run(x, c)
 	obs := map[string]any{"trace": res.trace, "graph": res.graph}
 	x.Observe(obs)
@@ -818,6 +901,11 @@ func exec(x *fw.Ctx, c Case) {
 		x.Fail(res.sig, "%s", msg)
 	case res.completed:
 		x.Cover("history-completed")
+		if res.tainted {
+			x.Cover("history-completed:after-an-avoided-class")
+		} else {
+			x.Cover("history-completed:clean")
+		}
 	}
 	if res.step == 0 {
 		x.Trivial()
@@ -827,14 +915,20 @@ func exec(x *fw.Ctx, c Case) {
 func init() {
 	fw.Register(fw.Spec[Case]{
 		ID: "C13",
-		Rule: "a case is a history of package operations over 3 user packages x 2 variable x 2 function names; " +
-			"block 1 = every history of length 1..4 (quick) / 1..5 (thorough) up to renaming of packages and names (bounded-exhaustive), " +
-			"block 2 = seeded histories of length 5..8, block 3 = seeded histories of 12..200 steps with defpackage options; " +
-			"after every step every name is resolved from every package (unqualified, p:n, p::n); " +
+		Rule: "a case is a history of package operations (in-package, use-package, unuse-package, export, unexport, setq, defvar, defun, makunbound, fmakunbound; " +
+			"in the long block also defpackage with :use/:export and the Go-level Import) over 3 user packages x 2 variable x 2 function names, run in fresh packages; " +
+			"block 0 = 33 hand-written probe histories (seed-independent); " +
+			"block 1 = EVERY history of length 1..4 (quick) / 1..5 (thorough) up to renaming of packages and names (bounded-exhaustive: 73 246 / 1 520 638 cases; " +
+			"each looks at the state before and after its last operation, its prefixes being cases of their own); " +
+			"block 2 = seeded histories of length 5..8 (sampled, NOT exhaustive: the stated bound 8 is only reached this way); " +
+			"block 3 = seeded histories of 12..200 steps; blocks 2 and 3 are checked after every step. " +
+			"After a step every name is resolved from every package: unqualified (value and boundp/fboundp), p:name and p::name for every p. " +
+			"Operation classes named by open known findings (evidence keys avoided:*) are generated in 1/4 of the seeded histories only (one class each); " +
+			"a departure after such an operation carries its class as root= in the signature. " +
 			"distinct = distinct history; non-trivial = at least one operation was executed and judged",
-		N:        nCases,
-		Gen:      gen,
-		Exec:     exec,
+		N:    nCases,
+		Gen:  gen,
+		Exec: exec,
 		Init: func() {
 			debug.SetGCPercent(400)
 			_, _ = sl.Eval(slip.NewScope(), "(setq *error-output* (make-broadcast-stream))")
